@@ -756,7 +756,27 @@ func (g *c19Gen) prevView() map[string]any {
 
 // ---------------------------------------------------------------- generator entry
 
+// Go leaves float64→int conversion of values outside int64 to the platform; the model has the
+// amd64 result (-2^63).  Elsewhere those literals are not generated.
+func c19ArchFilter() {
+	if runtime.GOARCH == "amd64" {
+		return
+	}
+	keep := func(pool []string) []string {
+		var out []string
+		for _, s := range pool {
+			f, err := strconv.ParseFloat(s, 64)
+			if err == nil && math.Abs(f) < 9.2e18 {
+				out = append(out, s)
+			}
+		}
+		return out
+	}
+	c19HugeNums = keep(c19HugeNums)
+}
+
 func genC19(c *Ctx) {
+	c19ArchFilter()
 	c.Emit("c19.facts", c19Facts())
 	c.Emit("c19.keys", c19Keys())
 	g := &c19Gen{r: c.R, c: c}
